@@ -306,7 +306,7 @@ pub fn alphabet(quick: bool) -> Vec<Sub> {
         for by in 0..3 {
             for label in 0..3 {
                 for idx in idxs {
-                    if quick && by == 2 && label != 2 {
+                    if quick && (by == 2 || label == 2) && !(by == 2 && label == 2 && *idx == Idx::AsSigned) {
                         continue;
                     }
                     v.push(Sub { by, label, idx: *idx, route });
